@@ -34,6 +34,10 @@ def level_source(j, n, f):
         out.append("<%! a = None %>")
     if f["def"]:
         out.append('<%%def name="d()">D%d</%%def>' % j)
+    if j == 0:
+        # a def of the most-derived template rendered on its own (get_def(name).render()) sees the same self / local / parent
+        out.append('<%def name="p()">P(self.d=${safe(lambda: self.d())} local.d=${safe(lambda: local.d())}'
+                   + (" parent.d=${safe(lambda: parent.d())}" if n > 1 else "") + ")</%def>")
     probes = ["self.d=${safe(lambda: self.d())}", "local.d=${safe(lambda: local.d())}", "self.a=${safe(lambda: self.attr.a)}"]
     if j < n - 1:
         probes.append("parent.d=${safe(lambda: parent.d())}")
@@ -85,6 +89,8 @@ def reference(n, flags):
             s += " " + body(j - 1)
         return s + ")"
 
+    if flags and flags[0].get("_def_probe"):
+        return "P(self.d=" + nearest(0, "def") + " local.d=" + nearest(0, "def") + ((" parent.d=" + (nearest(1, "def") if eff > 1 else "MISSING")) if n > 1 else "") + ")"
     return body(eff - 1)
 
 
@@ -124,7 +130,11 @@ def h_chain(n, full):
             out = t.render(**data)
         except Exception as e:
             exc = e
-        return dict(n=n, flags=flags, out=out, exc=exc)
+        try:
+            pout = lk.get_template("t0").get_def("p").render(**data)
+        except Exception as e:
+            pout = "raised %s: %s" % (type(e).__name__, e)
+        return dict(n=n, flags=flags, out=out, exc=exc, pout=pout)
     return h
 
 
@@ -143,6 +153,12 @@ def on_chain(p, r, exc, acc):
         pass
     if r["exc"] is not None or got != want:
         acc.candidate(kind="inheritance-dispatch", input=desc, detail="rendered %r (exception %r), documented %r" % (got, r["exc"], want))
+    else:
+        pflags = [dict(r["flags"][0], _def_probe=True)] + r["flags"][1:]
+        pwant = reference(r["n"], pflags)
+        acc.vcs += 1
+        if r.get("pout") != pwant:
+            acc.candidate(kind="inheritance-dispatch", input=dict(levels=r["n"], flags=pflags), detail="get_def('p').render() gave %r, documented %r" % (r.get("pout"), pwant))
     acc.sample(dict(desc, output=got))
 
 
@@ -317,7 +333,10 @@ for j in range(n - 1):
     data["dyn%d" % j] = None if flags[j]["inherit"] == "dynamic-none" else "t%d" % (j + 1)
 want = reference(n, flags)
 try:
-    got = " ".join(lk.get_template("t0").render(**data).split())
+    if flags[0].get("_def_probe"):
+        got = " ".join(lk.get_template("t0").get_def("p").render(**data).split())
+    else:
+        got = " ".join(lk.get_template("t0").render(**data).split())
 except Exception as e:
     got = "raised %s: %s" % (type(e).__name__, e)
 print("rendered  :", got); print("documented:", want)
